@@ -31,11 +31,11 @@ def universe(t, rng, size, pid):
         vals = [dict(t="none")] + [dict(t="some", v=x) for x in sub]
     elif k in ("seq", "slice"):
         sub = universe(t[1], rng, 3, pid)
-        vals = [dict(t="seq", xs=[], nil=True), dict(t="seq", xs=[], nil=False)]
+        vals = [dict(t="seq", xs=[], nil=True), dict(t="seq", xs=[], nil=False), dict(t="seq", xs=[], nil=False, cap=2)]
         for x in sub[:3]:
             vals.append(dict(t="seq", xs=[x], nil=False))
         if len(sub) >= 2:
-            vals += [dict(t="seq", xs=[sub[0], sub[1]], nil=False), dict(t="seq", xs=[sub[1], sub[0]], nil=False),
+            vals += [dict(t="seq", xs=[sub[0], sub[1]], nil=False), dict(t="seq", xs=[sub[1], sub[0]], nil=False, cap=3),
                      dict(t="seq", xs=[sub[0], sub[0]], nil=False), dict(t="seq", xs=[sub[0], sub[1], sub[0]], nil=False)]
     elif k == "ptr":
         sub = universe(t[1], rng, 3, pid)
@@ -74,7 +74,7 @@ def universe(t, rng, size, pid):
     else:
         raise ValueError(t)
     if len(vals) > size:
-        keep = vals[:2] + rng.sample(vals[2:], size - 2)
+        keep = vals[:3] + rng.sample(vals[3:], size - 3)
         vals = keep
     return json.loads(json.dumps(vals))
 
